@@ -34,40 +34,41 @@ fn l_rinv_additive() {
     assert!(kz::eq(&kz::r_inv(&kz::xor(&a, &b)), &kz::xor(&kz::r_inv(&a), &kz::r_inv(&b))));
 }
 
-/// Additive uninterpreted function [u8;16] -> [u8;16] (Ackermann table with a concrete call counter):
-/// equal arguments give equal results; f(0) = 0; and whenever the argument is the XOR of two earlier arguments the
-/// result is the XOR of their results.  Everything else is unconstrained.  It stands for "any GF(2)-linear map";
+/// Additive uninterpreted function [u8;16] -> [u8;16] (call log with a concrete call counter): f(0) = 0, and at the calls
+/// named by the harness (HINT) - where the argument is the XOR of two earlier arguments, or equal to an earlier one - the
+/// result is the XOR of their results (resp. the same result).  Everything else is unconstrained (a search over all
+/// pairs instead of hints works too but makes CBMC run out of memory).  It stands for "any GF(2)-linear map";
 /// a harness that replaces a function g by it is licensed by the obligation proving g(a ^ b) == g(a) ^ g(b) for all a, b
 /// (every constraint imposed here is an instance of that statement, so no behaviour of the real g is excluded).
 pub mod auf {
     pub const MAXC: usize = 52;
+    pub const NOH: usize = usize::MAX;
+    pub const SAME: usize = usize::MAX - 1;
     pub static mut IN: [u128; MAXC] = [0; MAXC];
     pub static mut OUT: [u128; MAXC] = [0; MAXC];
     pub static mut N: usize = 0;
+    /// HINT[n] = [i, j]: the n-th call's argument is expected to be IN[i] ^ IN[j] (or IN[i] itself when j = SAME);
+    /// only then is the corresponding instance of additivity (functionality) imposed.  A wrong hint imposes nothing.
+    pub static mut HINT: [[usize; 2]; MAXC] = [[NOH; 2]; MAXC];
+    pub fn hint(n: usize, i: usize, j: usize) { unsafe { HINT[n] = [i, j]; } }
     #[allow(static_mut_refs)]
     pub fn f(xb: &[u8; 16]) -> [u8; 16] {
         unsafe {
             let x = u128::from_le_bytes(*xb);
             let mut y: u128 = kani::any();
-            let mut found = false;
-            let mut i = 0;
-            while i < N {
-                if !found && IN[i] == x { y = OUT[i]; found = true; }
-                i += 1;
-            }
-            if !found && x == 0 { y = 0; found = true; }
-            if !found {
-                let mut i = 0;
-                while i < N {
-                    let mut j = 0;
-                    while j < i {
-                        if IN[i] ^ IN[j] == x { kani::assume(y == OUT[i] ^ OUT[j]); }
-                        j += 1;
-                    }
-                    i += 1;
+            assert!(N < MAXC);
+            let [i, j] = HINT[N];
+            if x == 0 {
+                y = 0; // f(0) = f(a ^ a) = 0
+            } else if i != NOH {
+                assert!(i < N);
+                if j == SAME {
+                    if IN[i] == x { y = OUT[i]; }
+                } else {
+                    assert!(j < N);
+                    if IN[i] ^ IN[j] == x { y = OUT[i] ^ OUT[j]; }
                 }
             }
-            assert!(N < MAXC);
             IN[N] = x;
             OUT[N] = y;
             N += 1;
@@ -82,6 +83,9 @@ pub mod auf {
 #[kani::stub(bcref::kuznyechik::r, auf::f)]
 #[kani::unwind(53)]
 fn l_l_additive() {
+    // calls 0..15: R^k(a), 16..31: R^k(b), 32..47: R^k(a ^ b) = argument k ^ argument 16 + k
+    let mut k = 0;
+    while k < 16 { auf::hint(32 + k, k, 16 + k); k += 1; }
     let a = any_block();
     let b = any_block();
     let la = kz::l(&a);
@@ -96,6 +100,8 @@ fn l_l_additive() {
 #[kani::stub(bcref::kuznyechik::r_inv, auf::f)]
 #[kani::unwind(53)]
 fn l_linv_additive() {
+    let mut k = 0;
+    while k < 16 { auf::hint(32 + k, k, 16 + k); k += 1; }
     let a = any_block();
     let b = any_block();
     let la = kz::l_inv(&a);
@@ -111,6 +117,10 @@ fn l_linv_additive() {
 #[kani::stub(bcref::kuznyechik::l, auf::f)]
 #[kani::unwind(53)]
 fn l_l_decomp() {
+    // call 0: L(0); call 1 + 2i: L(u_i); call 2 + 2i: L(p_i ^ u_i) = arguments 2i ^ (1 + 2i); call 33: L(a), a = argument 32
+    let mut i = 0;
+    while i < 16 { auf::hint(2 + 2 * i, 2 * i, 1 + 2 * i); i += 1; }
+    auf::hint(33, 32, auf::SAME);
     let a = any_block();
     let mut p = [0u8; 16]; // bytes 0..i of a, rest zero
     let mut acc = kz::l(&p); // XOR_{j<i} L(unit_j(a_j))
@@ -133,6 +143,10 @@ fn l_l_decomp() {
 #[kani::stub(bcref::kuznyechik::l_inv, auf::f)]
 #[kani::unwind(53)]
 fn l_linv_decomp() {
+    // call 0: L(0); call 1 + 2i: L(u_i); call 2 + 2i: L(p_i ^ u_i) = arguments 2i ^ (1 + 2i); call 33: L(a), a = argument 32
+    let mut i = 0;
+    while i < 16 { auf::hint(2 + 2 * i, 2 * i, 1 + 2 * i); i += 1; }
+    auf::hint(33, 32, auf::SAME);
     let a = any_block();
     let mut p = [0u8; 16];
     let mut acc = kz::l_inv(&p);
@@ -205,6 +219,11 @@ pub fn spec_dec_dk(dk: &[[u8; 16]; 10], b: &[u8; 16]) -> [u8; 16] {
 #[kani::stub(bcref::kuznyechik::l_inv, auf::f)]
 #[kani::unwind(53)]
 fn l_dec_dk_is_standard() {
+    // calls 0..7: L^-1(K_2..K_9) (rk[1..8]); 8: L^-1(K_10 ^ b); 8 + i: L^-1(S^-1(t_{i-1})), i = 1..8;
+    // then the standard's D: call 17: same argument as call 8; call 17 + (9 - j), j = 8..1: rk[j] ^ S^-1(..) = argument (j - 1) ^ argument (8 + 9 - j)
+    auf::hint(17, 8, auf::SAME);
+    let mut j = 1;
+    while j <= 8 { auf::hint(17 + (9 - j), j - 1, 8 + (9 - j)); j += 1; }
     let k: [[u8; 16]; 10] = kani::any();
     let b = any_block();
     let dk = spec_inv_keys(&k);
@@ -281,21 +300,17 @@ pub mod ipuf {
     }
 }
 
-// L^-1 L = L L^-1 = id, for every inverse pair (R, R^-1) (in particular the real one: l_r_inverse)
-// @ob name=l_l_inverse props=C01 kind=lemma fn=bcref::kuznyechik::l,bcref::kuznyechik::l_inv uses=l_r_inverse timeout=600
+// L^-1 L = L L^-1 = id (direct: the sixteen nested cancellations are found by the solver in about a minute)
+// @ob name=l_l_inverse props=C01 kind=lemma fn=bcref::kuznyechik::l,bcref::kuznyechik::l_inv timeout=600
 #[kani::proof]
-#[kani::stub(bcref::kuznyechik::r, ipuf::fwd)]
-#[kani::stub(bcref::kuznyechik::r_inv, ipuf::bwd)]
-#[kani::unwind(41)]
+#[kani::unwind(17)]
 fn l_l_inverse() {
     let a = any_block();
     assert!(kz::eq(&kz::l_inv(&kz::l(&a)), &a));
 }
-// @ob name=l_l_inverse_rev props=C01 kind=lemma fn=bcref::kuznyechik::l,bcref::kuznyechik::l_inv uses=l_r_inverse timeout=600
+// @ob name=l_l_inverse_rev props=C01 kind=lemma fn=bcref::kuznyechik::l,bcref::kuznyechik::l_inv timeout=600
 #[kani::proof]
-#[kani::stub(bcref::kuznyechik::r, ipuf::fwd)]
-#[kani::stub(bcref::kuznyechik::r_inv, ipuf::bwd)]
-#[kani::unwind(41)]
+#[kani::unwind(17)]
 fn l_l_inverse_rev() {
     let a = any_block();
     assert!(kz::eq(&kz::l(&kz::l_inv(&a)), &a));
@@ -314,21 +329,43 @@ fn l_s_inverse() {
     assert!(kz::eq(&kz::s(&kz::s_inv(&a)), &a));
 }
 
-// D_K(E_K(a)) = a and E_K(D_K(a)) = a for every ten round keys, for every inverse pair (L, L^-1) and (S, S^-1)
-// @ob name=l_ref_roundtrip props=C01 kind=lemma fn=bcref::kuznyechik::encrypt_with,bcref::kuznyechik::decrypt_with uses=l_l_inverse,l_l_inverse_rev,l_s_inverse timeout=600
+// LS = L o S and its inverse S^-1 o L^-1, for every inverse pair (L, L^-1) (one use of each)
+// @ob name=l_ls_inverse props=C01 kind=lemma fn=bcref::kuznyechik::lsx,bcref::kuznyechik::x_linv_sinv uses=l_l_inverse,l_l_inverse_rev,l_s_inverse timeout=300
 #[kani::proof]
 #[kani::stub(bcref::kuznyechik::l, ipuf::fwd)]
 #[kani::stub(bcref::kuznyechik::l_inv, ipuf::bwd)]
+#[kani::unwind(41)]
+fn l_ls_inverse() {
+    let a = any_block();
+    let k = any_block();
+    // x_linv_sinv(k, .) undoes lsx(k', .) up to the key additions: S^-1 L^-1 (L S (a ^ k')) = a ^ k'
+    let z = [0u8; 16];
+    assert!(kz::eq(&kz::x_linv_sinv(&z, &kz::lsx(&k, &a)), &kz::x(&k, &a)));
+    assert!(kz::eq(&kz::lsx(&z, &kz::x_linv_sinv(&k, &a)), &kz::x(&k, &a)));
+}
+
+/// (LS, (LS)^-1) as an uninterpreted inverse pair behind the reference signatures lsx(k, a) = LS(a ^ k),
+/// x_linv_sinv(k, a) = (LS)^-1(a ^ k); licensed by l_ls_inverse
+pub fn uf_lsx(k: &[u8; 16], a: &[u8; 16]) -> [u8; 16] { ipuf::fwd(&kz::x(k, a)) }
+pub fn uf_x_linv_sinv(k: &[u8; 16], a: &[u8; 16]) -> [u8; 16] { ipuf::bwd(&kz::x(k, a)) }
+
+// D_K(E_K(a)) = a and E_K(D_K(a)) = a for every ten round keys, for every inverse pair (LS, (LS)^-1).
+// Together with the conformance obligations of a backend (encrypt_block = E, decrypt_block = D on well-formed key
+// material) this is C01 for that backend.
+// @ob name=l_ref_roundtrip props=C01 kind=lemma fn=bcref::kuznyechik::encrypt_with,bcref::kuznyechik::decrypt_with uses=l_ls_inverse timeout=300
+#[kani::proof]
+#[kani::stub(bcref::kuznyechik::lsx, uf_lsx)]
+#[kani::stub(bcref::kuznyechik::x_linv_sinv, uf_x_linv_sinv)]
 #[kani::unwind(41)]
 fn l_ref_roundtrip() {
     let k: [[u8; 16]; 10] = kani::any();
     let a = any_block();
     assert!(kz::eq(&kz::decrypt_with(&k, &kz::encrypt_with(&k, &a)), &a));
 }
-// @ob name=l_ref_roundtrip_rev props=C01 kind=lemma fn=bcref::kuznyechik::encrypt_with,bcref::kuznyechik::decrypt_with uses=l_l_inverse,l_l_inverse_rev,l_s_inverse timeout=600
+// @ob name=l_ref_roundtrip_rev props=C01 kind=lemma fn=bcref::kuznyechik::encrypt_with,bcref::kuznyechik::decrypt_with uses=l_ls_inverse timeout=300
 #[kani::proof]
-#[kani::stub(bcref::kuznyechik::l, ipuf::fwd)]
-#[kani::stub(bcref::kuznyechik::l_inv, ipuf::bwd)]
+#[kani::stub(bcref::kuznyechik::lsx, uf_lsx)]
+#[kani::stub(bcref::kuznyechik::x_linv_sinv, uf_x_linv_sinv)]
 #[kani::unwind(41)]
 fn l_ref_roundtrip_rev() {
     let k: [[u8; 16]; 10] = kani::any();
@@ -380,9 +417,14 @@ pub mod ruf {
 /// (every constraint is an instance of one of these statements about the real L, L^-1).
 pub mod aipuf {
     pub const MAXC: usize = 48;
+    pub const NOH: usize = usize::MAX;
     pub static mut X: [u128; MAXC] = [0; MAXC];
     pub static mut Y: [u128; MAXC] = [0; MAXC];
     pub static mut N: usize = 0;
+    /// HINT[n] = [i, j]: the n-th call's argument is expected to be the XOR of the arguments of calls i and j (same
+    /// direction as recorded: X for fwd, Y for bwd); only then is that instance of additivity imposed.
+    pub static mut HINT: [[usize; 2]; MAXC] = [[NOH; 2]; MAXC];
+    pub fn hint(n: usize, i: usize, j: usize) { unsafe { HINT[n] = [i, j]; } }
     #[allow(static_mut_refs)]
     pub fn fwd(xb: &[u8; 16]) -> [u8; 16] {
         unsafe {
@@ -395,19 +437,19 @@ pub mod aipuf {
                 i += 1;
             }
             if !found && x == 0 { y = 0; found = true; }
+            assert!(N < MAXC);
             if !found {
                 let mut i = 0;
                 while i < N {
                     kani::assume(Y[i] != y); // injective
-                    let mut j = 0;
-                    while j < i {
-                        if X[i] ^ X[j] == x { kani::assume(y == Y[i] ^ Y[j]); } // additive
-                        j += 1;
-                    }
                     i += 1;
                 }
+                let [i, j] = HINT[N];
+                if i != NOH {
+                    assert!(i < N && j < N);
+                    if X[i] ^ X[j] == x { kani::assume(y == Y[i] ^ Y[j]); } // additive
+                }
             }
-            assert!(N < MAXC);
             X[N] = x; Y[N] = y; N += 1;
             y.to_le_bytes()
         }
@@ -424,19 +466,19 @@ pub mod aipuf {
                 i += 1;
             }
             if !found && y == 0 { x = 0; found = true; }
+            assert!(N < MAXC);
             if !found {
                 let mut i = 0;
                 while i < N {
                     kani::assume(X[i] != x);
-                    let mut j = 0;
-                    while j < i {
-                        if Y[i] ^ Y[j] == y { kani::assume(x == X[i] ^ X[j]); }
-                        j += 1;
-                    }
                     i += 1;
                 }
+                let [i, j] = HINT[N];
+                if i != NOH {
+                    assert!(i < N && j < N);
+                    if Y[i] ^ Y[j] == y { kani::assume(x == X[i] ^ X[j]); }
+                }
             }
-            assert!(N < MAXC);
             X[N] = x; Y[N] = y; N += 1;
             x.to_le_bytes()
         }
